@@ -11,6 +11,7 @@
 (*   notify : NotifyDo wakes exactly min(count, #blocked on that address)  *)
 (*            waiters of THAT address and returns that number;             *)
 (*   store  : StoreDo writes the cell.                                     *)
+(*   wait (host out of memory) : WaitFail - the call traps, no effect.     *)
 (* A waiter is woken by at most one notify because waking removes it from  *)
 (* the queue.  Which of several waiters a notify picks is not specified.   *)
 (***************************************************************************)
@@ -46,6 +47,14 @@ WaitCheck(t) ==
             /\ waiting' = SetF(waiting, ts[t].a, Waiting(ts[t].a) \cup {t})
     /\ UNCHANGED cell
 
+\* the host cannot allocate what blocking needs (the wait record, the map or the map node of the address): the call ends in a
+\* trap - result 3 here -, nothing is enqueued and no waiter of this or any other address is disturbed
+WaitFail(t) ==
+    /\ ts[t].st = "called" /\ ts[t].op \in {"wait32", "wait64"}
+    /\ Cell(ts[t].a) = ts[t].x
+    /\ ts' = [ts EXCEPT ![t].st = "ready", ![t].res = 3]
+    /\ UNCHANGED <<cell, waiting>>
+
 Min(x, y) == IF x < y THEN x ELSE y
 
 \* W: the waiters this notify wakes
@@ -76,7 +85,7 @@ Ret(t, r) ==
     /\ ts' = [ts EXCEPT ![t] = Idle]
     /\ UNCHANGED <<cell, waiting>>
 
-Internal == \E t \in Threads : \/ WaitCheck(t) \/ Timeout(t) \/ StoreDo(t)
+Internal == \E t \in Threads : \/ WaitCheck(t) \/ WaitFail(t) \/ Timeout(t) \/ StoreDo(t)
                                \/ \E W \in SUBSET Waiting(ts[t].a) : NotifyDo(t, W)
 
 ----------------------------------------------------------------------------
